@@ -223,13 +223,21 @@ func c18Worker(w *W) {
 			}
 			st.checkAll(base, fmt.Sprintf("round %d before Refresh", round))
 			cfg := map[string]string{"appender.d.type": "Discard", "logger.root.type": "Logger", "logger.root.appenderRef.ref": "d"}
-			switch round % 4 {
+			switch round % 6 {
 			case 1:
 				cfg["logger.l1.type"], cfg["logger.l1.tags"], cfg["logger.l1.appenderRef.ref"] = "Logger", "_ab1_*,svc2", "d"
 			case 2:
-				cfg["logger.l1.type"] = "NoSuchLoggerType" // a failing Refresh
+				cfg["logger.l1.type"] = "NoSuchLoggerType" // a Refresh that fails early
 			case 3:
 				cfg["logger.l1.type"], cfg["logger.l1.tags"], cfg["logger.l1.appenderRef.ref"] = "AsyncLogger", "cd3_*", "d"
+			case 4:
+				// a Refresh that fails LATE (after the tags were bound to their loggers): after the Destroy that follows,
+				// registration works as ever
+				cfg["logger.l1.type"], cfg["logger.l1.tags"], cfg["logger.l1.appenderRef.ref"] = "Logger", "_ab1_*,svc2", "d"
+				cfg["bufferCap"] = "plenty"
+			case 5:
+				cfg["logger.l1.type"], cfg["logger.l1.tags"], cfg["logger.l1.appenderRef.ref"] = "AsyncLogger", "cd3_*", "d"
+				cfg["enableCaller"] = "perhaps"
 			}
 			pv, _ := catch(func() { _ = log.Refresh(cfg) })
 			if pv != nil {
